@@ -145,6 +145,12 @@ func init() {
 	share("C05", "C05.16", "C01.10", "a flush sends the whole group, resolved alerts included")
 	share("C05", "C05.17", "C20.1", "the retry stage sends the batch it filtered and reports the outcome")
 	share("C05", "C05.18", "C01.7", "the group keeps flushing until it is destroyed")
+	share("C01", "C01.39", "C18.1", "a re-send of an admitted alert is always accepted by the per-name limit: an alert that keeps firing is never timed out by its own heartbeats being refused")
+	share("C01", "C01.40", "C18.3", "the store refuses an alert only when the limit says so, and the refusal is counted")
+	share("C02", "C02.19", "C12.13", "the per-alert cache is told about every change of a silence through the version: a stored silence is never changed in place")
+	share("C09", "C09.14", "C12.13", "the replicas are told about every change of a silence: a stored silence is never changed in place, only replaced through merge")
+	share("C05", "C05.19", "C01.2", "a dispatcher started by a reload is handed the whole store, resolved alerts included: the resolution of an alert that ended before the reload is still reported")
+	share("C04", "C04.19", "C10.15", "what the de-duplication compares against is what was logged: an entry is never changed in place")
 	share("C06", "C06.13", "C01.3", "every alert is routed")
 	share("C06", "C06.14", "C01.7", "a group runs until destroyed")
 	share("C06", "C06.15", "C01.8", "a recreated group starts with group_wait")
